@@ -890,8 +890,12 @@ class Engine:
                     return
             elif k == 'drop':
                 pl = t['p']
+                try:
+                    dv = self.load(st, self.resolve_place(st, fr, pl))
+                except IndexFork:
+                    dv = None
                 st.effects.append({'kind': 'drop', 'ty': body.tystr(pl['ty']), 'site': site,
-                                   'place': mir.fmt_place(body, pl)})
+                                   'place': mir.fmt_place(body, pl), 'value': dv})
                 if not self.goto(st, fr, bb, t['target'], results):
                     return
             elif k == 'unreachable':
